@@ -9,7 +9,9 @@ the calls prettify(), prettify(encoding), decode(indent_level=k), decode_content
     whitespace in text (exact inside pre/textarea for plain HTML-flavoured trees);
   * the real output against the Lean code-mirror `decodeImpl` and the Lean recursive `decodeSpec` (driver ops dec/spec), the
     real `_event_stream` against the model's balanced event list (op ev), `Formatter(indent=v).indent` against `indentOf`
-    (op indent), `str.strip` against `strip`, `_should_pretty_print` against `shouldPrettyPrint`."""
+    (op indent), `str.strip` against `strip`, `_should_pretty_print` against `shouldPrettyPrint`;
+  * stream reparse-model: the real prettify()/decode() texts through the real parser and through the Lean tokenizer + handler + builder
+    model (op reparse), trees and erased trees compared (Props/C14 section 11, `prettify_reparse_tokenized`)."""
 import json
 import re
 import warnings
@@ -33,18 +35,37 @@ MANIFEST = dict(
           "(nonws_equal*, recv_nonws_equal, prettify_flavours), the same piece sequence (pretty_same_events) and the same token sequence "
           "once character data is merged and its whitespace disregarded (pretty_same_tokens, specials_ok_table). (3) Formatter.indent "
           "normalisation and tables generated from the live code, whole-table obligations (indent_*, builtin_units, html_preserve_tags, "
-          "xml_preserves_nothing, should_pretty_print_iff, whitespace_table). Tie: differential runs of the real prettify / decode / "
+          "xml_preserves_nothing, should_pretty_print_iff, whitespace_table). (4) The re-parse clause through the MODEL of CPython's "
+          "tokenizer (Model/Tokenizer.lean) + bs4's handlers + the construction machine, on C05's class RenderWritable ('minimal' "
+          "formatter, whitespace unit, any start level): pretty_output_is_plain_output (Tag.decode's loop on the pieces C05's renderer "
+          "computes = C05's rendering of prettyTreeL, the tree with the whitespace strings added, text stripped, blank text dropped), "
+          "pretty_tree_same_parse (for EVERY forest: the normal forms of the two written documents are equal after eraseWsL -- "
+          "whitespace characters removed from character data outside whitespace-preserving elements, empty strings dropped, "
+          "comments/CDATA/doctypes/PIs, names, nesting and everything below a whitespace-preserving element compared exactly), "
+          "prettify_reparse_tokenized (tokenize+build of decode(indent_level=l)'s text and of decode()'s text give the same tree after "
+          "eraseWsL, namely the erased normal form of the tree; hypotheses: RenderWritable of the forest and, separately, of its pretty "
+          "tree -- both decidable, the implication is not proved -- and preAgreeL: an element the pretty-printer lays out is not "
+          "whitespace-preserving for the re-parsing builder). Tie: differential runs of the real prettify / decode / "
           "decode_contents / encode / encode_contents on every element of html.parser-parsed, API-edited and XML-flavoured trees x "
           "formatters x indent settings x levels x encodings against the Lean mirrors and specs (ops dec, spec, raw impl/spec, ev, evs, "
-          "tp/tq, indent, strip, spp), and the direct Python oracle of the statement incl. html.parser re-parse and tokenisation of both outputs."),
+          "tp/tq, indent, strip, spp), and the direct Python oracle of the statement incl. html.parser re-parse and tokenisation of both outputs; "
+          "stream reparse-model: the real prettify() and decode() texts of up to three receivers per generated document are fed to the "
+          "real parser and to the Lean tokenizer+handler+builder model (op reparse): same tree incl. attributes and positions, Lean "
+          "eraseWsL = an independent Python erasure of the real tree, and (inert text, plain HTML tree) the two erased real trees equal."),
     design="7/C14",
     note=("Whitespace is Python's (str.isspace): under formatters that do not turn them into entities (minimal, None) pretty-printing "
           "also strips leading/trailing NBSP, U+3000 etc. from text nodes -- 'only whitespace' by this definition, though visible in a "
           "browser (observation, not claimed as a defect). Opaque inputs of the model: the attribute string of a tag per eventual "
           "encoding and the substituted body of a string (C05/C06/C15 own them); the codec step of the bytes flavour "
-          "(str.encode(enc, 'xmlcharrefreplace')) is applied by the harness to the model's text. The tokenizer is not modelled: the "
-          "re-parse clause is proved at the token level (pretty_same_tokens) and the cuts are compared with html.parser's on the real "
-          "outputs; the tree-level comparison is the Python oracle. The 'only whitespace' claims carry the hypothesis that the "
+          "(str.encode(enc, 'xmlcharrefreplace')) is applied by the harness to the model's text. Re-parse clause: PROVED at tree "
+          "level through the tokenizer model on RenderWritable forests under the 'minimal' formatter (prettify_reparse_tokenized; no "
+          "hidden elements, no script/style, void names written <br/>, no <x/> otherwise, attribute values the renderer double-quotes "
+          "without &lt;/&gt;, comments/CDATA/doctypes/PIs without their terminators; the pretty tree's own RenderWritable is a second "
+          "decidable hypothesis, not derived); for every tree and formatter it is proved at the token level with opaque pieces "
+          "(pretty_same_tokens: cuts are a definition, compared with html.parser's on the real outputs); outside RenderWritable the "
+          "tree-level comparison is RECORDED: the real parser and the tokenizer model are run on the real outputs (stream "
+          "reparse-model) and the Python oracle compares the trees. The tokenizer model itself is tied to html.parser by equality of "
+          "callback streams (TK, C04, C18), not proved against CPython's regexes. The 'only whitespace' claims carry the hypothesis that the "
           "indent unit is whitespace; Formatter(indent='--') is run for model correspondence and line structure only; in the bytes "
           "flavour a whitespace character the target encoding lacks becomes a character reference (statement is about the text "
           "handed to the codec). A hidden whitespace-preserving element (hidden=True set by hand on a pre) has no opening/closing "
@@ -53,7 +74,7 @@ MANIFEST = dict(
           "outside the property's observables (prettify()/decode()). An XML-flavoured BeautifulSoup's declaration line is not "
           "indented by decode(indent_level=k>0) (modelled as is). For HTMLFormatter/XMLFormatter(indent=...) the unit is read from "
           "the formatter object (C15 owns which unit results)."),
-    technique="Lean 4 refinement proofs (code-mirror = recursive spec, laws of the spec, generated tables) + differential correspondence + direct Python oracle incl. re-parse and tokenisation",
+    technique="Lean 4 refinement proofs (code-mirror = recursive spec, laws of the spec, generated tables; re-parse clause through the tokenizer model via C05/C04 on RenderWritable) + differential correspondence (incl. real parser vs tokenizer+builder model on real prettify() output) + direct Python oracle incl. re-parse and tokenisation",
 )
 
 XML_DECL = '<?xml version="1.0" encoding="utf-8"?>\n'
@@ -801,6 +822,7 @@ def check_document_(ctx: Ctx, recipe, stream, r, specs_pool, unit_of_spec, reque
     named = [sp for sp in specs_pool if sp[0] in ("name", "func")]
     specs = [["name", "minimal"], r.choice(named)] + r.sample(specs_pool, n_specs - 2)
     feats = {id(t): subtree_features(t) for t in recvs}
+    rp_doc = [0]
 
     # event stream correspondence (formatter independent)
     ev_queries, ev_real = [], []
@@ -920,6 +942,10 @@ def check_document_(ctx: Ctx, recipe, stream, r, specs_pool, unit_of_spec, reque
                                 report(ctx, "pretty and plain output differ in non-whitespace characters", case=case,
                                               expected=dropws(plain), observed=dropws(real), stream=stream)
                             ctx.count("oracle:nonws")
+                        if call == ["prettify"] and unit_ws and plain is not None and rp_doc[0] < RP_PER_DOC and not (
+                                isinstance(recv, BS) and recv.is_xml):
+                            rp_doc[0] += 1
+                            _RP.append((real, plain, case, plain_html, pc.inert, stream))
                         if call == ["prettify"] and unit_ws and plain is not None and pc.inert:
                             ok, a, b = reparse_equal(real, plain, plain_html)
                             ctx.count("oracle:reparse" + (":exact-pre" if plain_html else ""))
@@ -1278,6 +1304,124 @@ def token_safe(recv):
     return True
 
 
+# --------------------------------------------------------------------------------------
+# the re-parse clause through the tokenizer MODEL (Props/C14 section 11)
+# --------------------------------------------------------------------------------------
+_RP = []            # (prettify() text, decode() text, case, plain_html, inert, stream) collected by check_document_
+RP_PER_DOC = 3
+SPECIAL_CLS = (1, 2, 3, 4, 5)   # Comment, CData, ProcessingInstruction, Declaration, Doctype as c03.cls_id numbers them
+
+
+def plain_shape(el):
+    """a real tree without start infos, as driver op `reparse` prints `eraseWsL`'s result: `<name>[...]`, text `"cls:cps"`"""
+    from . import c03
+    from .common import cps
+    out = []
+    for c in el.contents:
+        if isinstance(c, E()["Tag"]):
+            out.append(f"<{cps(c.name) or '-'}>[{plain_shape(c)}]")
+        else:
+            out.append(f"\"{c03.cls_id(c)}:{cps(str.__str__(c)) or '-'}\"")
+    return "".join(out)
+
+
+def erased_shape(el, pres):
+    """independent Python version of the normalisation the property names (Lean `eraseWsL`): character data outside
+    whitespace-preserving elements loses its whitespace (str.isspace) and disappears when empty; comments, CDATA, PIs,
+    declarations, doctypes and everything below a whitespace-preserving element stay as they are"""
+    from . import c03
+    from .common import cps
+    out = []
+    for c in el.contents:
+        if isinstance(c, E()["Tag"]):
+            inner = plain_shape(c) if c.name in pres else erased_shape(c, pres)
+            out.append(f"<{cps(c.name) or '-'}>[{inner}]")
+        else:
+            cid = c03.cls_id(c)
+            t = str.__str__(c)
+            if cid not in SPECIAL_CLS:
+                t = "".join(ch for ch in t if not ch.isspace())
+                if t == "":
+                    continue
+            out.append(f"\"{cid}:{cps(t) or '-'}\"")
+    return "".join(out)
+
+
+def reparse_model_stream(ctx: Ctx, drv, limit):
+    """real prettify()/decode() text -> (a) the real parser, (b) the Lean tokenizer model + bs4 handler model + construction machine
+    (driver op `c14 reparse`): same tree incl. attributes and positions, for both texts; the model's `eraseWsL` = the Python
+    erasure of the real tree; and (direct oracle, where the text pieces are inert and the tree is plain HTML) the two erased real
+    trees are equal -- the conclusion of `prettify_reparse_tokenized`, on every generated document, inside and outside its class."""
+    from . import c04, tk
+    from .common import cps
+    name = "reparse-model"
+    pairs = _RP[:limit]
+    ctx.count(f"{name}:collected", len(_RP))
+    del _RP[:]
+    if not pairs:
+        return
+    texts = []
+    for pretty, plain, *_ in pairs:
+        texts.extend([pretty, plain])
+    uniq = sorted(set(texts))
+    needs = drv.ask([f"tk needs {cps(t) or '-'}" for t in uniq])
+    cfg = c04.cfg_tokens({})
+    reps = drv.ask([f"c14 reparse {cfg} {tk._tab(n)} {cps(t) or '-'}" for t, n in zip(uniq, needs)])
+    model = dict(zip(uniq, reps))
+    real = {}
+    for t in uniq:
+        try:
+            soup = c04.real_parse(t, {})
+            real[t] = ("ok", c04.shape(soup), erased_shape(soup, PROP_HTML_PRESERVE))
+        except Exception as ex:  # noqa: BLE001
+            real[t] = ("error", type(ex).__name__, "")
+    for pretty, plain, case, plain_html, inert, stream in pairs:
+        ctx.count(f"{name}:pairs")
+        ctx.count(f"{name}:from:{stream}")
+        bad = False
+        for which, t in (("prettify()", pretty), ("decode()", plain)):
+            m = model[t].split("|", 1)
+            flag = m[0]
+            mtree, _, merased = (m[1] if len(m) > 1 else "").rpartition("|")
+            # the tree part contains '|' itself (start infos); the erased part does not
+            st, rtree, rerased = real[t]
+            ctx.count(f"{name}:texts")
+            ctx.count(f"{name}:flag:{flag}")
+            if st == "error" or flag != "ok":
+                if not (st == "error" and flag == "error"):
+                    bad = True
+                    ctx.corr_disagreements += 1
+                    report(ctx, "tokenizer+builder model and the real parser disagree on whether the output parses", case=case | {"text_of": which},
+                           observed=f"{st}:{rtree}"[:300], model=model[t][:300], stream=name, no_failing_input=True)
+                continue
+            if mtree != rtree:
+                bad = True
+                ctx.corr_disagreements += 1
+                report(ctx, "tokenizer+builder model and the real parser build different trees from " + which + " output",
+                       case=case | {"text": t[:2000]}, observed=rtree[:2000], model=mtree[:2000], stream=name, no_failing_input=True)
+            elif merased != rerased:
+                bad = True
+                ctx.corr_disagreements += 1
+                report(ctx, "Lean eraseWsL and the Python erasure disagree on the tree of " + which + " output",
+                       case=case | {"text": t[:2000]}, observed=rerased[:2000], model=merased[:2000], stream=name, no_failing_input=True)
+        a, b = real[pretty], real[plain]
+        nontriv = None
+        if a[0] == "ok" and b[0] == "ok":
+            if inert and plain_html:
+                ctx.count(f"{name}:erased-trees-compared")
+                if a[2] != b[2]:
+                    report(ctx, "re-parse of prettify() output differs from re-parse of decode() output after erasing whitespace in "
+                                "character data outside pre/textarea (trees of the real parser; the tokenizer model agrees with it)"
+                           if not bad else "re-parse of prettify() output differs from re-parse of decode() output after erasing "
+                                           "whitespace in character data outside pre/textarea",
+                           case=case, expected=b[2][:2000], observed=a[2][:2000], stream=name)
+                if "<" in a[2] and pretty != plain:
+                    nontriv = ("RP", hash((pretty, plain)))
+            else:
+                ctx.count(f"{name}:not-compared:" + ("not-inert" if not inert else "not-plain-html"))
+        ctx.case(nontriv)
+
+
 def gen_recipe(r, stream):
     if stream == "html":
         return {"kind": "html", "markup": gen_html(r), "builder": r.choice(["default"] * 6 + ["custom", "nopre", "custom-list", "custom-frozen"]), "edits": []}
@@ -1333,6 +1477,8 @@ def run(ctx: Ctx):
         "text piece is inert for html.parser (no raw '<', every '&' starts a complete character reference)",
         "indent_level >= 0 for the line-structure oracle's depth (negative levels are compared with the model only through max(level,0))",
         "a hidden whitespace-preserving element is compared with the model but excluded from the line-structure/newline oracle",
+        "stream reparse-model re-parses with the default html.parser builder (pre/textarea preserved, multi_valued_attributes=None); the "
+        "erased trees of prettify() and decode() are compared only for inert text pieces and plain-HTML trees (preAgreeL of the theorem)",
     ]
     drv = Driver()
     # ---- small ops: indent normalisation, strip, _should_pretty_print ----
@@ -1426,6 +1572,8 @@ def run(ctx: Ctx):
             r = ctx.rng(stream, i)
             recipe = gen_recipe(r, stream)
             check_document(ctx, recipe, stream, r, specs_pool, unit_of_spec, requests, max_recv, n_specs)
+    # ---- the re-parse clause through the tokenizer model ----
+    reparse_model_stream(ctx, drv, ctx.n(4000, 40000))
     # ---- the Lean model ----
     lines = []
     for q in requests:
@@ -1496,6 +1644,39 @@ def run(ctx: Ctx):
         ctx.notes.append("Lean obligations do not check; generated tables changed: " + ", ".join(ctx.lean.gen_changed or ["<none>"]))
 
 
+def replay_reparse(v, soup):
+    """stream reparse-model: real prettify()/decode() of the receiver -> real parser and tokenizer model, erased trees"""
+    from . import c04, tk
+    from .common import cps
+    c = v["case"]
+    recv = soup
+    if c.get("receiver", "r") != "r":
+        for i in c["receiver"].split("/")[0].split("."):
+            recv = recv.contents[int(i)]
+    farg = make_formatter_arg(c["formatter"])
+    pretty, plain = do_call(recv, ["prettify"], farg), do_call(recv, ["decode", None], farg)
+    print("prettify():", repr(pretty)[:600])
+    print("decode()  :", repr(plain)[:600])
+    drv = Driver()
+    needs = drv.ask([f"tk needs {cps(t) or '-'}" for t in (pretty, plain)])
+    reps = drv.ask([f"c14 reparse {c04.cfg_tokens({})} {tk._tab(n)} {cps(t) or '-'}" for t, n in zip((pretty, plain), needs)])
+    er, bad = [], False
+    for which, t, rp in zip(("prettify()", "decode()"), (pretty, plain), reps):
+        sp = c04.real_parse(t, {})
+        tree, era = c04.shape(sp), erased_shape(sp, PROP_HTML_PRESERVE)
+        flag, _, rest = rp.partition("|")
+        mtree, _, mera = rest.rpartition("|")
+        print(f"re-parse of {which}: real parser and tokenizer model " + ("AGREE" if (flag == "ok" and mtree == tree and mera == era) else
+              f"DISAGREE (model flag {flag})"))
+        print("   erased tree:", repr(sp.decode())[:0] + era[:600])
+        bad = bad or not (flag == "ok" and mtree == tree and mera == era)
+        er.append(era)
+    same = er[0] == er[1]
+    print("property " + ("holds on this input: the two re-parses are equal after erasing whitespace in character data outside pre/textarea"
+                         if same else "VIOLATED: the two re-parses differ after erasing whitespace in character data outside pre/textarea"))
+    return 0 if (same and not bad) else 1
+
+
 def replay(path):
     v = json.load(open(path))
     c = v["case"]
@@ -1511,6 +1692,8 @@ def replay(path):
         return 1
     soup, applied = build(c["recipe"])
     print("document :", repr(soup.decode())[:400])
+    if v.get("stream") == "reparse-model":
+        return replay_reparse(v, soup)
     if "receiver" in c and "rawcall" in c:
         e = E()
         recv = soup
